@@ -2664,6 +2664,25 @@ theorem sdist_congr_support (G H : ι → ι → ℝ) (hGH : ∀ a b, G a b ≠ 
 
 end wdbinary
 
+section pointwise
+variable {ι : Type} [Fintype ι] [DecidableEq ι]
+
+/-- matrices that agree in every cell are the same matrix (the SMT side states agreement for the cells in range only; the cells in range are
+all the cells of the Lean matrix) -/
+theorem matrix_ext_cells (A B : ι → ι → ℝ) (h : ∀ a b, A a b = B a b) : A = B :=
+  funext fun a => funext fun b => h a b
+
+theorem wd_congr_cells (A B : ι → ι → ℝ) (h : ∀ a b, A a b = B a b) (x y : ι) : wd A x y = wd B x y := by
+  rw [matrix_ext_cells A B h]
+
+theorem sdist_congr_cells (A B : ι → ι → ℝ) (h : ∀ a b, A a b = B a b) (x y : ι) : sdist A x y = sdist B x y := by
+  rw [matrix_ext_cells A B h]
+
+theorem tot_congr_cells (A B : ι → ι → ℝ) (h : ∀ a b, A a b = B a b) : tot A = tot B := by
+  rw [matrix_ext_cells A B h]
+
+end pointwise
+
 -- (tenth batch, `section dijkstra`: definitions `wwalk`, `reachw`, `wd`; `wd_self`, `wd_nonneg`, `wd_le`, `le_wd`, `wd_approx`, `wd_attained`
 --  (the infimum is a minimum), `wd_relax`, `wd_triangle`, `wwalk_cross(_wd)`, `dijkstra_lower`, `dijkstra_step`, `dijkstra_step_le`,
 --  `dijkstra_step_inv`, `dijkstra_step_T`, `dijkstra_init`, `dijkstra_exhausted`, `dijkstra_smt`, `wd_smt`, `reachw_iff_sdist`, `reachw_iff_walk(_pos)`, `wd_pos`, `wd_pred`:
@@ -2673,5 +2692,6 @@ end wdbinary
 --  `swalk_of_wwalk`, `wwalk_of_swalk`, `swalk_wd`, `swalk_lower`, `floyd_smt`: all proved.)
 -- (twelfth batch, `section wdbinary`: on a 0/1 matrix the weighted distance is the hop distance (`wd_binary`, `wd_binary_smt`, `wwalk_binary_len`,
 --  `wwalk_binary_of_walk`); the hop distance depends only on the support (`walk_congr_support`, `sdist_congr_support`): all proved.)
+-- (thirteenth batch, `section pointwise`: `matrix_ext_cells`, `wd_congr_cells`, `sdist_congr_cells`, `tot_congr_cells`: all proved.)
 
 end VerifLemmas
